@@ -272,6 +272,59 @@ def install(ip):
     def _print(ip, args, kw):
         return None
 
+    def _mk_operator(name, astop, inplace):
+        def f(ip, args, kw):
+            a, b = args
+            if inplace:
+                r = yield from ip.inplace_op(astop, a, b)
+            else:
+                r = yield from ip.binop(astop, a, b)
+            return r
+        M['operator.' + name] = f
+        M['operator.__%s__' % name] = f
+    for _n, _op in (('add', ast.Add), ('sub', ast.Sub), ('mul', ast.Mult), ('truediv', ast.Div), ('matmul', ast.MatMult), ('pow', ast.Pow)):
+        _mk_operator(_n, _op, False)
+        if _n != 'pow':
+            _mk_operator('i' + _n, _op, True)
+
+    @reg('operator.neg')
+    def _opneg(ip, args, kw):
+        r = yield from ip.unop(ast.USub, args[0])
+        return r
+
+    for _n, _sym in (('lt', '<'), ('le', '<='), ('gt', '>'), ('ge', '>='), ('eq', '=='), ('ne', '!=')):
+        def _mkcmp(sym):
+            def f(ip, args, kw):
+                r = yield from ip.rich_compare(sym, args[0], args[1])
+                return r
+            return f
+        M['operator.' + _n] = _mkcmp(_sym)
+
+    @reg('operator.itemgetter')
+    def _itemgetter(ip, args, kw):
+        raise Unsupported('operator.itemgetter')
+
+    @reg('builtins.sorted')
+    def _sorted(ip, args, kw):
+        xs = yield from _list(ip, [args[0]], {})
+        if kw.get('key') is not None:
+            raise Unsupported('sorted(key=...)')
+        if any(is_sym(x) or not isinstance(x, (str, int, float, Fraction, tuple)) for x in xs):
+            raise Unsupported('sorted() of symbolic / non-scalar values')
+        try:
+            return sorted(xs, reverse=bool(kw.get('reverse', False)))
+        except TypeError:
+            raise SymRaise('TypeError', 'unorderable')
+
+    @reg('builtins.reversed')
+    def _reversed(ip, args, kw):
+        xs = yield from _list(ip, [args[0]], {})
+        return list(reversed(xs))
+
+    @reg('functools.partial')
+    def _partial(ip, args, kw):
+        return I.SPartial(args[0], list(args[1:]), dict(kw.items()))
+
     @reg('builtins.min')
     def _min(ip, args, kw):
         xs = list(args[0]) if len(args) == 1 else list(args)
@@ -378,6 +431,18 @@ def install(ip):
         return SStr()
 
     # ------------------------------------------------------------------ misc stdlib
+    @reg('warnings.catch_warnings')
+    def _catch_warnings(ip, args, kw):
+        list(kw.items())
+        return I.SCtx()          # warning bookkeeping only: no effect on values
+
+    @reg('warnings.simplefilter')
+    def _simplefilter(ip, args, kw):
+        list(kw.items())
+        return None
+
+    M['warnings.filterwarnings'] = _simplefilter
+
     @reg('warnings.warn')
     def _warn(ip, args, kw):
         return None
@@ -667,12 +732,19 @@ def install(ip):
         a = ip.unopt(args[0])
         if not isinstance(a, SArr):
             return ip.truth(a)
-        if len(a.shape) != 1 or a.dtype != 'bool':
-            raise Unsupported('np.any of a non 1-D / non boolean array')
+        if a.dtype != 'bool':
+            raise Unsupported('np.any of a non boolean array')
         # uninterpreted function of the whole array (only ever guards warnings)
         f = z3.Function('np_any', z3.ArraySort(z3.IntSort(), z3.BoolSort()), z3.IntSort(), z3.BoolSort())
         i = z3.Int('eta!i')
-        return f(z3.Lambda([i], to_bool(a.elem(ip.st, (i,)))), to_int(a.shape[0]))
+        axis = kw.get('axis', args[1] if len(args) > 1 else None)
+        if len(a.shape) == 1 and axis in (None, 0, -1):
+            return f(z3.Lambda([i], to_bool(a.elem(ip.st, (i,)))), to_int(a.shape[0]))
+        if axis == 0 and len(a.shape) > 1:
+            # any along the leading axis: one application of the same predicate per remaining index
+            sa, n0 = a.snapshot(ip.st), a.shape[0]
+            return ip.st.new_array(tuple(a.shape[1:]), lambda idx: f(z3.Lambda([i], to_bool(sa((i,) + tuple(idx)))), to_int(n0)), 'bool')
+        raise Unsupported('np.any over this axis / of an N-D array')
 
     @reg('ndarray.any')
     def _ndany(ip, args, kw):
@@ -726,6 +798,19 @@ def install(ip):
             if not ip.decide(mk_cmp('>=', n, 0)):
                 n = 0
         return ip.st.new_array((simp(n),), lambda idx: mk_add(lo, idx[0]), 'int')
+
+    def _index_pair(name, gen):
+        def f(ip, args, kw):
+            n = ip.unopt(args[0])
+            if is_sym(n) or len(args) > 1 or kw:
+                raise Unsupported('np.%s with a symbolic size / offset' % name)
+            pairs = gen(int(n))
+            rows, cols = [p[0] for p in pairs], [p[1] for p in pairs]
+            return (ip.st.new_array((len(rows),), list_to_fn(rows), 'int'), ip.st.new_array((len(cols),), list_to_fn(cols), 'int'))
+        M['numpy.' + name] = f
+    _index_pair('triu_indices', lambda n: [(i, j) for i in range(n) for j in range(i, n)])
+    _index_pair('tril_indices', lambda n: [(i, j) for i in range(n) for j in range(0, i + 1)])
+    _index_pair('diag_indices', lambda n: [(i, i) for i in range(n)])
 
     @reg('numpy.einsum')
     def _einsum(ip, args, kw):
